@@ -204,7 +204,7 @@ def run_case(case, ctx=None):
         sweepQ = sweeps.config_queries(model0, case["tokens"], case.get("idents", sweeps.IDENTS))
         sweepP = list(dict.fromkeys(v for p in sorted(model0.all_prefixes()) for v in sweeps.variants(p)))
         ids = list(dict.fromkeys(ids + list(case.get("idents", sweeps.IDENTS)) + [i for t in case["tokens"] for i in (t, "1" + t)]))
-    for mode in ("ctor", "merge-late", "history", "loader", "shared-list"):
+    for mode in ("ctor", "merge-late", "history", "loader", "shared-list", "one-shot-iterable", "copies"):
         model = model0
         prefixes = sorted(model.all_prefixes()) + UNREG + (GHOSTS if mode == "history" else []) + [p for p in sweepP if p not in UNREG]
         if mode == "merge-late" and not any(r.psyn or r.usyn for r in recs):
@@ -222,6 +222,37 @@ def run_case(case, ctx=None):
                 conv, model = build_history(recs, d, probe)
                 if model is None:
                     continue
+            elif mode == "one-shot-iterable":
+                # the constructor takes any iterable of records
+                conv = Converter((to_record(r) for r in recs), delimiter=d)
+                c_it = Converter(iter([to_record(r) for r in recs]), delimiter=d)
+                if canon(c_it) != canon(conv) or canon(conv) != canon(Converter([to_record(r) for r in recs], delimiter=d)):
+                    fails.append(("C02/constructor-depends-on-the-kind-of-iterable", f"{where}: a generator / an iterator / a list of the same records give different converters"))
+            elif mode == "copies":
+                # copies of a converter are converters: after one object of each pair learnt a synonym through a merge, every
+                # object answers for what its own records list says
+                import copy as _copy
+                import pickle as _pickle
+                from ..impl import model_of
+
+                if not recs:
+                    continue
+                base = Converter([to_record(r) for r in recs], delimiter=d)
+                for p_ in sorted(model0.all_prefixes())[:3]:
+                    base.expand_pair(p_, "1"), base.expand_pair_all(p_, "1"), base.get_record(p_)
+                objs = {"shallow": _copy.copy(base), "deep": _copy.deepcopy(base), "pickled": _pickle.loads(_pickle.dumps(base))}
+                for k_, (name_, o_) in enumerate(objs.items()):
+                    o_.add_record(Record(prefix=f"zc{k_}", uri_prefix=recs[0].uri_prefix), merge=True)
+                    o_.add_prefix(f"zd{k_}", f"zd{k_}/")
+                prefixes = prefixes + [f"z{c}{k_}" for c in "cd" for k_ in range(3)]
+                for name_, o_ in objs.items():
+                    m_ = Model(model_of(o_).records, d)
+                    for p_ in prefixes:
+                        check_pair(o_, m_, p_, "1", fails, where + f" ({name_} copy, compared with its own records list)")
+                        if d not in p_:
+                            check_string(o_, m_, p_ + d + "1", fails, where + f" ({name_} copy, compared with its own records list)")
+                conv = base
+                model = Model(model_of(base).records, d)
             elif mode == "shared-list":
                 from ..impl import build_shared_list, model_of
 
